@@ -7,6 +7,7 @@
    B <token value> <r1> <r2> ... -> OK <text>      (block_begin branch of subparse, rendered)
    M <src>                       -> OK 0|1         (has_marker)
    I <else> <neg,q,body> ...     -> OK <n>         (ifuses: first clause + elif clauses)
+   Q <scripts> <step> ...        -> OK <n> ...     (ifuses renders in one environment, scripted changing answers)
    T <0|1>                       -> OK out|raise   (assert) *)
 open Model
 
@@ -51,6 +52,16 @@ let () =
             let cl t = match String.split_on_char ',' t with
               | [n; q; b] -> ((n = "1", q = "1"), int_of_string b) | _ -> failwith "clause" in
             "OK " ^ string_of_int (eval_if (parse_ifuses (cl first) (List.map cl rest) (int_of_string els)))
+          | "Q" :: scripts :: steps ->
+            (* scripts: q:1.0.1,q:0   steps: else/neg,q,body/neg,q,body ... (first clause, then elif clauses) *)
+            let bools t = List.map (fun c -> c = "1") (String.split_on_char '.' t) in
+            let sc = if scripts = "-" then [] else List.map (fun t -> match String.split_on_char ':' t with
+                | [q; l] -> (n_of_int (int_of_string q), bools l) | _ -> failwith "script") (String.split_on_char ',' scripts) in
+            let cl t = match String.split_on_char ',' t with
+              | [n; q; b] -> ((n = "1", n_of_int (int_of_string q)), n_of_int (int_of_string b)) | _ -> failwith "clause" in
+            let step t = match String.split_on_char '/' t with
+              | els :: first :: rest -> ((cl first, List.map cl rest), n_of_int (int_of_string els)) | _ -> failwith "step" in
+            String.concat " " ("OK" :: List.map (fun b -> string_of_int (int_of_n b)) (render_ifuses_script (List.map step steps) sc))
           | ["T"; t] -> (match render_assert (t = "1") with Out _ -> "OK out" | Raise -> "OK raise")
           | _ -> "BAD"
         with _ -> "EXC"
